@@ -15,4 +15,4 @@ if not ok:
     print("factgen failed:", msg); sys.exit(1)
 PY
 cd "$HERE/lean"
-lake build Cpf Cpf.AuditTool 2>&1 | tail -5
+lake build Cpf Cpf.AuditTool cpfdriver 2>&1 | tail -5
